@@ -3,7 +3,7 @@ import os, sys
 sys.path.insert(0, os.path.join(os.path.dirname(os.path.abspath(__file__)), '..', 'lib'))
 import vcommon as V, e2e
 
-PROPS = ['props/C10.v', 'props/Pipeline.v', 'props/C10_src.v']
+PROPS = ['props/C10.v', 'props/Pipeline.v', 'props/C10_src.v', 'props/State.v']
 ASSUMPTIONS = e2e.ASSUMPTIONS + [
     "purity of the Go functions cannot be proved about Go from a pure model: it is carried by the correspondence on histories (same in-memory objects verified repeatedly, caller-owned objects serialised before and after every call, fresh-copy comparison)",
     "order independence is proved for the model stages under permutations of every association list that stands for a Go map; "
@@ -14,7 +14,11 @@ EXPLANATION = ("Theorems: the verdict-relevant stages of the pipeline model are 
                "present); the reduced link - hence the whole summary link - is the same whatever the order. Correspondence on "
                "histories: up to 4 verifications of the same in-memory layout/keys with equal or different parameters, every one "
                "repeated 8-24 times, steps mixing key- and certificate-authorised links, two counted links with different "
-               "by-products in the last step, direct VerifyArtifacts calls on unclean colliding names.")
+               "by-products in the last step, direct VerifyArtifacts calls on unclean colliding names, artifacts recorded with two hash "
+               "algorithms, key objects whose id is only a label used before and after the genuine key. props/State.v: the regenerated "
+               "inventory of package-level state (gen/Globals.v) shows no write, no escaping reference and no process-state call in "
+               "in_toto, and in the call model of model/Conc.v a call then returns the same whatever calls preceded it "
+               "(State_history_pure) - a cache or memo table added to the library breaks these obligations.")
 
 
 def correspondence(ctx):
